@@ -212,6 +212,8 @@ impl Actor for RemoteActor {
                     )),
                 };
                 state.pending_requests.insert(tag, reply);
+                #[cfg(ractor_verif)]
+                crate::verif::proxy_fwd(myself.get_id(), "call", tag);
                 if cast!(state.session, NodeSessionMessage::SendMessage(node_msg)).is_err() {
                     state.remove_pending_request(tag);
                 }
@@ -222,6 +224,8 @@ impl Actor for RemoteActor {
                 metadata,
             } => {
                 // Handle Cast
+                #[cfg(ractor_verif)]
+                crate::verif::proxy_fwd(myself.get_id(), "cast", 0);
                 let node_msg = crate::protocol::node::NodeMessage {
                     msg: Some(crate::protocol::node::node_message::Msg::Cast(
                         crate::protocol::node::Cast {
@@ -236,6 +240,12 @@ impl Actor for RemoteActor {
             }
             SerializedMessage::CallReply(message_tag, reply_data) => {
                 // Handle the reply to a "Call" message
+                #[cfg(ractor_verif)]
+                crate::verif::proxy_resolve(
+                    myself.get_id(),
+                    message_tag,
+                    state.pending_requests.contains_key(&message_tag),
+                );
                 if let Some(port) = state.remove_pending_request(message_tag) {
                     let _ = port.send(reply_data);
                 }
